@@ -1005,6 +1005,9 @@ fn compare_records(pre: &Obs, post: &Obs, eff: &Effect, a: &Action, f: &mut Vec<
                         kind,
                         format!("{kind} by {}: listing {} of {} changed although it is not the target", a.sender, k.1, k.0),
                     ));
+                    if a.act.is_deposit() || a.act.is_payout() {
+                        f.push(Finding::new("C05.collateral_record_change", kind, format!("{kind}: listing {} of {} changed although the message names another record", k.1, k.0)));
+                    }
                     if matches!(a.act, Act::FeeCycle) {
                         f.push(Finding::new("C13.silent_change", kind, format!("fee cycle changed listing {}", k.1)));
                     }
@@ -1069,6 +1072,9 @@ fn compare_records(pre: &Obs, post: &Obs, eff: &Effect, a: &Action, f: &mut Vec<
                         kind,
                         format!("{kind} by {}: bucket {} of {} changed although it is not the target", a.sender, k.1, k.0),
                     ));
+                    if a.act.is_deposit() || a.act.is_payout() {
+                        f.push(Finding::new("C05.collateral_record_change", kind, format!("{kind}: bucket {} of {} changed although the message names another record", k.1, k.0)));
+                    }
                     if matches!(a.act, Act::FeeCycle) {
                         f.push(Finding::new("C13.silent_change", kind, format!("fee cycle changed bucket {}", k.1)));
                     }
